@@ -8,6 +8,10 @@ from .hirtext import expr_str, pat_str
 from . import c01, c02, c11, c14
 
 
+# `if is_component { self.wrap_children(<the three carriers, in the wrapper's parameter order>) } else { [..] }`
+WRAP_OR_LIST = re.compile(r"if is_component self\.wrap_children\((?:elems|slot_flag|slots), (?:elems|slot_flag|slots), (?:elems|slot_flag|slots)\) else Array\(ArrayLit\{")
+
+
 def r03_1(ctx):
     r = Rule("R03.1", "child-shape dispatch table of the children builder (slice pattern x child variant x guard) equals the documented one",
              "a child routed to the wrong arm becomes the wrong kind of slot")
@@ -58,7 +62,7 @@ def r03_1(ctx):
             ok = "key: Ident(" in body and "'default'" in body and "value: expr" in body
             r.ob("function child is the `default` slot itself", ok, C.mloc(ch, a), body[:140])
         if key == "_":
-            ok = body.startswith("if is_component self.wrap_children(elems, slot_flag, slots) else Array(ArrayLit{")
+            ok = bool(WRAP_OR_LIST.match(body))
             r.ob("any other single child: wrapped default slot for components, list otherwise", ok, C.mloc(ch, a), body[:110])
         if key == "Object":
             ok = "let props = props" in body and "Object(ObjectLit{span: DUMMY_SP, props: props})" in body
@@ -79,7 +83,7 @@ def r03_1(ctx):
     multi = arms.get("_")
     if multi is not None:
         body = expr_str(multi["body"])
-        r.ob("several children: wrapped default slot for components, list otherwise", body.startswith("if is_component self.wrap_children(elems, slot_flag, slots) else Array(ArrayLit{"), C.mloc(ch, multi), body[:100])
+        r.ob("several children: wrapped default slot for components, list otherwise", bool(WRAP_OR_LIST.match(body)), C.mloc(ch, multi), body[:100])
     return r
 
 
@@ -116,7 +120,7 @@ def r03_3(ctx):
     # wrapper: default first, then object props extended / spread pushed
     t = expr_str(wr["body"])
     ok = "if let Some(expr) = slots match expr {Object(ObjectLit(props: slot_props, ..))" in t.replace("$", "slot_props") or ("props.extend_from_slice(slot_props)" in t and "props.push(Spread(SpreadElement{" in t)
-    r.ob("wrapper merges v-slots beside `default` (object literal: its properties; otherwise: spread)", "props.extend_from_slice(slot_props)" in t and "props.push(Spread(SpreadElement{" in t, C.mloc(wr, wr), "extend_from_slice(slot_props) / push(Spread)")
+    r.ob("wrapper merges v-slots beside `default` (object literal: its properties; otherwise: spread)", bool(re.search(r"props\.(extend_from_slice|extend|append)\(slot_props\)", t)) and "props.push(Spread(SpreadElement{" in t, C.mloc(wr, wr), "extend(slot_props) / push(Spread)")
     first = t.find("'default'")
     r.ob("`default` is the first entry of the slots object", 0 <= first < t.find("slots") if "slots" in t else False, C.mloc(wr, wr), "default thunk is built before the v-slots merge")
     return r
